@@ -622,8 +622,7 @@ UNS = 'fim/user/network_service.py'
 AP = 'fim/graph/abc_property_graph.py'
 MUTANTS = [
     {'name': 'interface-name-guard-reads-handle-cache', 'file': 'fim/user/network_service.py', 'rule': 'R4',
-     'find': "        model_ids = self.topo.graph_model.get_all_ns_or_link_connection_points(link_id=self.node_id)\n        all_names = [self.topo.graph_model.get_node_properties(node_id=i)[1][ABCPropertyGraph.PROP_NAME]\n                     for i in model_ids]\n",
-     'replace': "        all_names = [n.name for n in self._interfaces]\n"},
+     'find': '        all_names = [known[i] if i in known else\n                     self.topo.graph_model.get_node_properties(node_id=i)[1][ABCPropertyGraph.PROP_NAME]\n                     for i in model_ids]\n', 'replace': '        all_names = list(known.values())\n'},
     {'name': 'rules-lose-service-type', 'file': RULES, 'rule': 'R1', 'find': '\\"L2STS\\", \\"L2Multisite\\", ', 'replace': '\\"L2STS\\", '},
     {'name': 'enum-member-added-without-rule', 'file': 'fim/slivers/interface_info.py', 'rule': 'R1',
      'find': '    SubInterface = enum.auto()\n', 'replace': '    SubInterface = enum.auto()\n    LoopbackPort = enum.auto()\n'},
